@@ -27,6 +27,7 @@ from nemoguardrails.colang.v2_x.lang.colang_ast import (
     Element,
     ElementType,
     EndScope,
+    Flow,
     ForkHead,
     Goto,
     If,
@@ -88,6 +89,12 @@ def expand_elements(
                     expanded_elements = _expand_when_stmt_element(element, flow_configs)
                     elements_changed = (
                         True  # Makes sure to update continue/break elements
+                    )
+                elif isinstance(element, Flow):
+                    # Only top-level flow definitions are registered, a nested one would
+                    # silently stay an unexpanded element that no flow can ever start
+                    raise ColangSyntaxError(
+                        f"Flow '{element.name}' is defined inside another flow"
                     )
                 elif isinstance(element, Continue):
                     if element.label is None and continue_break_labels is not None:
